@@ -177,7 +177,7 @@ def check_divide(parent_before, parent_after, children, ndiv, periodic, ops, use
         lo, hi = np.asarray(c.K) - dKc / 2, np.asarray(c.K) + dKc / 2
         if np.any(lo < K0 - dK / 2 - 1e-12) or np.any(hi > K0 + dK / 2 + 1e-12):
             return ("divide_outside", f"child cell centred at {c.K} is not inside the parent cell centred at {K0}")
-        j = [i for i, e in enumerate(E) if np.max(np.abs(e - np.asarray(c.K))) < 1e-12]
+        j = [i for i, e in enumerate(E) if np.max(np.abs(e - np.asarray(c.K))) < min(1e-12, 1e-3 * float(np.min(dKc)))]
         if len(j) != 1:
             return ("divide_offcell", f"child centre {c.K} is not a sub-cell centre of the parent {K0} (ndiv {nd})")
         got.append(j[0])
@@ -195,8 +195,9 @@ def check_divide(parent_before, parent_after, children, ndiv, periodic, ops, use
         return None
     # siblings merged: every sub-cell must be represented by exactly one survivor, with the multiplicity as weight
     mult = [0] * len(children)
+    tol = min(1e-7, 1e-3 * float(np.min(dKc)))      # stays far below the sub-cell size however deep the refinement is
     for i, e in enumerate(E):
-        reps = [ic for ic, c in enumerate(children) if equivalent(e, c.K, ops)]
+        reps = [ic for ic, c in enumerate(children) if equivalent(e, c.K, ops, tol=tol)]
         if len(reps) != 1:
             return ("divide_merge", f"sub-cell {e} of {K0} is represented by {len(reps)} surviving children")
         mult[reps[0]] += 1
@@ -231,7 +232,8 @@ def check_merge(before, K_list_after, ops, stats=None):
     # lost - recorded through `stats`, not demanded.)
     owed = {}
     for s in removed:
-        partners = [K for K in K_list_after if equivalent(s[1], K.K, ops)]
+        tol = min(1e-7, 1e-3 * float(np.min(s[2]))) if np.all(np.asarray(s[2]) > 0) else 1e-7
+        partners = [K for K in K_list_after if equivalent(s[1], K.K, ops, tol=tol)]
         if stats is not None and partners and not any(
                 K.refinement_level == s[4] and np.max(np.abs(np.asarray(K.dK) - s[2])) < 1e-12 for K in partners):
             stats["merge_different_cell_size"] = stats.get("merge_different_cell_size", 0) + 1
